@@ -172,28 +172,49 @@ impl Stargate for RecStargate {
 #[derive(Serialize, Deserialize, Clone, Debug)]
 struct Emit<C> {
     msgs: Vec<CosmosMsg<C>>,
+    /// 0 never, 1 success, 2 error, 3 always (the contracts' reply handlers just return Ok)
+    #[serde(default)]
+    reply_on: u8,
+}
+fn subs<C: Clone + std::fmt::Debug + PartialEq + schemars::JsonSchema>(m: Emit<C>) -> Vec<SubMsg<C>> {
+    let mode = m.reply_on;
+    m.msgs
+        .into_iter()
+        .map(|x| match mode {
+            1 => SubMsg::reply_on_success(x, 7),
+            2 => SubMsg::reply_on_error(x, 7),
+            3 => SubMsg::reply_always(x, 7),
+            _ => SubMsg::new(x),
+        })
+        .collect()
+}
+fn reply_custom(_: DepsMut<MyQuery>, _: Env, _: cosmwasm_std::Reply) -> StdResult<Response<MyMsg>> {
+    Ok(Response::new())
+}
+fn reply_empty(_: DepsMut, _: Env, _: cosmwasm_std::Reply) -> StdResult<Response> {
+    Ok(Response::new())
 }
 fn exec_custom(_: DepsMut<MyQuery>, _: Env, _: MessageInfo, m: Emit<MyMsg>) -> StdResult<Response<MyMsg>> {
-    Ok(Response::new().add_submessages(m.msgs.into_iter().map(SubMsg::new)))
+    Ok(Response::new().add_submessages(subs(m)))
 }
 fn inst_custom(_: DepsMut<MyQuery>, _: Env, _: MessageInfo, m: Emit<MyMsg>) -> StdResult<Response<MyMsg>> {
-    Ok(Response::new().add_submessages(m.msgs.into_iter().map(SubMsg::new)))
+    Ok(Response::new().add_submessages(subs(m)))
 }
 fn perm_custom(_: DepsMut<MyQuery>, _: Env, m: Emit<MyMsg>) -> StdResult<Response<MyMsg>> {
-    Ok(Response::new().add_submessages(m.msgs.into_iter().map(SubMsg::new)))
+    Ok(Response::new().add_submessages(subs(m)))
 }
 fn query_custom(deps: Deps<MyQuery>, _: Env, req: QueryRequest<MyQuery>) -> StdResult<Binary> {
     // forward a query from inside the contract
     deps.querier.query::<String>(&req).and_then(|s| to_json_binary(&s))
 }
 fn exec_empty(_: DepsMut, _: Env, _: MessageInfo, m: Emit<Empty>) -> StdResult<Response> {
-    Ok(Response::new().add_submessages(m.msgs.into_iter().map(SubMsg::new)))
+    Ok(Response::new().add_submessages(subs(m)))
 }
 fn inst_empty(_: DepsMut, _: Env, _: MessageInfo, m: Emit<Empty>) -> StdResult<Response> {
-    Ok(Response::new().add_submessages(m.msgs.into_iter().map(SubMsg::new)))
+    Ok(Response::new().add_submessages(subs(m)))
 }
 fn perm_empty(_: DepsMut, _: Env, m: Emit<Empty>) -> StdResult<Response> {
-    Ok(Response::new().add_submessages(m.msgs.into_iter().map(SubMsg::new)))
+    Ok(Response::new().add_submessages(subs(m)))
 }
 fn query_empty(_: Deps, _: Env, _: Empty) -> StdResult<Binary> {
     to_json_binary(&"q")
@@ -229,10 +250,10 @@ fn messages() {
         .with_gov(Rec::<GovMsg, Empty, Empty>::new("gov"))
         .with_stargate(RecStargate)
         .build(|router, _, storage| router.bank.init_balance(storage, &user, vec![coin(u0, "x")]).unwrap());
-    let code_c = app.store_code(Box::new(ContractWrapper::new(exec_custom, inst_custom, query_custom).with_sudo(perm_custom).with_migrate(perm_custom)));
-    let code_e = app.store_code(Box::new(ContractWrapper::new_with_empty(exec_empty, inst_empty, query_empty).with_sudo_empty(perm_empty).with_migrate_empty(perm_empty)));
-    let kc = app.instantiate_contract(code_c, user.clone(), &Emit::<MyMsg> { msgs: vec![] }, &[], "kc", Some(user.to_string())).unwrap();
-    let ke = app.instantiate_contract(code_e, user.clone(), &Emit::<Empty> { msgs: vec![] }, &[], "ke", Some(user.to_string())).unwrap();
+    let code_c = app.store_code(Box::new(ContractWrapper::new(exec_custom, inst_custom, query_custom).with_sudo(perm_custom).with_migrate(perm_custom).with_reply(reply_custom)));
+    let code_e = app.store_code(Box::new(ContractWrapper::new_with_empty(exec_empty, inst_empty, query_empty).with_sudo_empty(perm_empty).with_migrate_empty(perm_empty).with_reply_empty(reply_empty)));
+    let kc = app.instantiate_contract(code_c, user.clone(), &Emit::<MyMsg> { msgs: vec![], reply_on: 0 }, &[], "kc", Some(user.to_string())).unwrap();
+    let ke = app.instantiate_contract(code_e, user.clone(), &Emit::<Empty> { msgs: vec![], reply_on: 0 }, &[], "ke", Some(user.to_string())).unwrap();
     let origin = choose(3); // 0 top level, 1 custom-typed contract, 2 Empty-typed contract (lifted)
     let amt = sym_u128("amt", 1, BAL);
     let custom_kinds = kinds(Some(MyMsg { tag: "hello".into() }), &other, amt);
@@ -254,6 +275,9 @@ fn messages() {
     // which entry point of the contract emits the message: 0 execute, 1 instantiate (a new instance),
     // 2 migrate (by the admin), 3 sudo
     let entry = if origin == 0 { 0 } else { choose(4) };
+    // the contract's sub-message mode (seed C17d): a module failure is absorbed only by Error / Always
+    let reply_on: u8 = if origin == 0 { 0 } else { choose(4) as u8 };
+    let caught = module_fails && (reply_on == 2 || reply_on == 3);
     note(format!("entry={}", entry));
     if entry == 3 {
         // sudo is its own top-level entry: the transfer goes first as a separate transaction
@@ -268,9 +292,9 @@ fn messages() {
             return app.execute_multi(user.clone(), vec![pay.clone(), custom_kinds[which].1.clone()]);
         }
         let (target, code, body) = if origin == 1 {
-            (kc.clone(), code_c, to_json_binary(&Emit { msgs: vec![custom_kinds[which].1.clone()] }).unwrap())
+            (kc.clone(), code_c, to_json_binary(&Emit { msgs: vec![custom_kinds[which].1.clone()], reply_on }).unwrap())
         } else {
-            (ke.clone(), code_e, to_json_binary(&Emit { msgs: vec![empty_kinds[which].1.clone()] }).unwrap())
+            (ke.clone(), code_e, to_json_binary(&Emit { msgs: vec![empty_kinds[which].1.clone()], reply_on }).unwrap())
         };
         let call: CosmosMsg<MyMsg> = match entry {
             0 => cosmwasm_std::WasmMsg::Execute { contract_addr: target.to_string(), msg: body, funds: vec![] }.into(),
@@ -328,9 +352,9 @@ fn messages() {
         check_native("sender_intact", e.sender.as_ref() == Some(&want_sender), || format!("{:?} expected {}", e.sender, want_sender));
         check_native("payload_intact", inner_ok(e), || format!("{} vs {}", e.payload, payload));
     }
-    match (&r, module_fails) {
+    match (&r, module_fails && !caught) {
         (Ok(_), false) => {
-            witness("module_ok");
+            witness(if caught { "module_failure_caught_by_reply" } else { "module_ok" });
             check("earlier_transfer_kept_on_success", eq(v(app.wrap().query_balance(&other, "x").unwrap().amount), v(amt)));
         }
         (Err(_), true) => {
@@ -338,7 +362,7 @@ fn messages() {
             check_unchanged_s("failing_module_aborts_the_transaction", app.storage(), &before);
         }
         (Ok(_), true) => {
-            check_native("module_failure_is_what_the_caller_sees", false, || "transaction succeeded".into());
+            check_native("module_failure_is_what_the_caller_sees", false, || format!("transaction succeeded (sub-message mode {})", reply_on));
         }
         (Err(e), false) => {
             check_native("module_success_is_what_the_caller_sees", false, || format!("{:#}", e));
@@ -356,8 +380,8 @@ fn queries() {
         .with_ibc(Rec::<IbcMsg, IbcQuery, Empty>::new("ibc"))
         .with_stargate(RecStargate)
         .build(|_, _, _| {});
-    let code_c = app.store_code(Box::new(ContractWrapper::new(exec_custom, inst_custom, query_custom).with_sudo(perm_custom).with_migrate(perm_custom)));
-    let kc = app.instantiate_contract(code_c, user.clone(), &Emit::<MyMsg> { msgs: vec![] }, &[], "kc", Some(user.to_string())).unwrap();
+    let code_c = app.store_code(Box::new(ContractWrapper::new(exec_custom, inst_custom, query_custom).with_sudo(perm_custom).with_migrate(perm_custom).with_reply(reply_custom)));
+    let kc = app.instantiate_contract(code_c, user.clone(), &Emit::<MyMsg> { msgs: vec![], reply_on: 0 }, &[], "kc", Some(user.to_string())).unwrap();
     let reqs: Vec<(&str, QueryRequest<MyQuery>, bool)> = vec![
         ("staking", QueryRequest::Staking(StakingQuery::BondedDenom {}), true),
         ("custom", QueryRequest::Custom(MyQuery { tag: "q".into() }), true),
@@ -409,10 +433,10 @@ fn bank_routing() {
         .with_bank(Rec::<BankMsg, BankQuery, BankSudo>::new("bank"))
         .with_custom(Rec::<MyMsg, MyQuery, Empty>::new("custom"))
         .build(|_, _, _| {});
-    let code_c = app.store_code(Box::new(ContractWrapper::new(exec_custom, inst_custom, query_custom).with_sudo(perm_custom).with_migrate(perm_custom)));
-    let code_e = app.store_code(Box::new(ContractWrapper::new_with_empty(exec_empty, inst_empty, query_empty).with_sudo_empty(perm_empty).with_migrate_empty(perm_empty)));
-    let kc = app.instantiate_contract(code_c, user.clone(), &Emit::<MyMsg> { msgs: vec![] }, &[], "kc", Some(user.to_string())).unwrap();
-    let ke = app.instantiate_contract(code_e, user.clone(), &Emit::<Empty> { msgs: vec![] }, &[], "ke", Some(user.to_string())).unwrap();
+    let code_c = app.store_code(Box::new(ContractWrapper::new(exec_custom, inst_custom, query_custom).with_sudo(perm_custom).with_migrate(perm_custom).with_reply(reply_custom)));
+    let code_e = app.store_code(Box::new(ContractWrapper::new_with_empty(exec_empty, inst_empty, query_empty).with_sudo_empty(perm_empty).with_migrate_empty(perm_empty).with_reply_empty(reply_empty)));
+    let kc = app.instantiate_contract(code_c, user.clone(), &Emit::<MyMsg> { msgs: vec![], reply_on: 0 }, &[], "kc", Some(user.to_string())).unwrap();
+    let ke = app.instantiate_contract(code_e, user.clone(), &Emit::<Empty> { msgs: vec![], reply_on: 0 }, &[], "ke", Some(user.to_string())).unwrap();
     let amt = sym_u128("amt", 0, BAL);
     let lists: Vec<Vec<Coin>> = vec![vec![], vec![coin(amt, "x")], vec![coin(u(0), "x")], vec![coin(amt, "x"), coin(u(7), "y")]];
     let coins = lists[choose(lists.len())].clone();
@@ -427,8 +451,8 @@ fn bank_routing() {
     LOG.with(|l| l.borrow_mut().clear());
     let r = catch(|| match origin {
         0 => app.execute(user.clone(), CosmosMsg::<MyMsg>::Bank(bank.clone())),
-        1 => app.execute_contract(user.clone(), kc.clone(), &Emit::<MyMsg> { msgs: vec![CosmosMsg::Bank(bank.clone())] }, &[]),
-        _ => app.execute_contract(user.clone(), ke.clone(), &Emit::<Empty> { msgs: vec![CosmosMsg::Bank(bank.clone())] }, &[]),
+        1 => app.execute_contract(user.clone(), kc.clone(), &Emit::<MyMsg> { msgs: vec![CosmosMsg::Bank(bank.clone())], reply_on: 0 }, &[]),
+        _ => app.execute_contract(user.clone(), ke.clone(), &Emit::<Empty> { msgs: vec![CosmosMsg::Bank(bank.clone())], reply_on: 0 }, &[]),
     });
     let r = match r {
         Ok(r) => r,
@@ -452,7 +476,7 @@ fn bank_routing() {
 pub fn scenarios(_tier: &str) -> Vec<Scenario> {
     vec![
         Scenario::new("bank_messages_reach_the_configured_bank", &["routed"], bank_routing),
-        Scenario::new("messages_kinds_origins_outcomes", &["routed", "module_ok", "module_failed"], messages),
+        Scenario::new("messages_kinds_origins_outcomes", &["routed", "module_ok", "module_failed", "module_failure_caught_by_reply"], messages),
         Scenario::new("queries_kinds_origins_outcomes", &["routed"], queries),
     ]
 }
